@@ -2,8 +2,10 @@
    node/pkg/vaa/structs.go (VAAID.Bytes / GovernanceEmitterPrefixBytes / EmitterPrefixBytes), of the three public RPC
    lookups (node/pkg/publicrpc/publicrpcserver.go) and of FindMissingMessages (node/cmd/guardiand/adminserver.go).
    The key formats, the prefix the gap scan uses and the batch limit are GENERATED from the source (gen/x_db.py).
+   The store is an ordered key/value list (badger: bytewise key order, one live version per key); iteration is
+   Seek(prefix) followed by Next() while ValidForPrefix(prefix), exactly as db.go drives the iterator.
    No proofs here (proofs/DbProofs.v). *)
-From Coq Require Import List ZArith Bool Arith.
+From Coq Require Import List ZArith NArith Bool Arith.
 From Coq Require Import Strings.Byte.
 From WH Require Import lib.Bytes lib.Digits lib.KeyFmt gen.Extracted model.Vaa.
 Import ListNotations.
@@ -15,9 +17,13 @@ Record vid := { i_ec : Z; i_ea : bytes; i_tc : Z; i_seq : Z }.
 Definition id_of (v : vaa) : vid := {| i_ec := echain v; i_ea := eaddr v; i_tc := tchain v; i_seq := seq v |}.
 
 (* hex.EncodeToString: two lower-case digits per byte *)
-Definition hexdigit (n : Z) : byte := byte_of_Z (if n <? 10 then 48 + n else 87 + n).
-Definition hex (b : bytes) : bytes :=
-  flat_map (fun x => [hexdigit (Z_of_byte x / 16); hexdigit (Z_of_byte x mod 16)]) b.
+Definition hexd (n : N) : byte :=
+  match n with
+  | 0 => x30 | 1 => x31 | 2 => x32 | 3 => x33 | 4 => x34 | 5 => x35 | 6 => x36 | 7 => x37
+  | 8 => x38 | 9 => x39 | 10 => x61 | 11 => x62 | 12 => x63 | 13 => x64 | 14 => x65 | _ => x66
+  end%N.
+Definition hexb (x : byte) : bytes := let n := Byte.to_N x in [hexd (N.shiftr n 4); hexd (N.land n 15)].
+Definition hex (b : bytes) : bytes := flat_map hexb b.
 
 Definition render_frag (i : vid) (f : kfrag) : bytes :=
   match f with
@@ -36,15 +42,43 @@ Definition emitter_prefix (c : Z) (a : bytes) (t : Z) : bytes :=
 (* what FindEmitterSequenceGap seeks / validates with *)
 Definition gap_prefix (c : Z) (a : bytes) (t : Z) : bytes := emitter_prefix c a t ++ db_gap_prefix_suffix.
 
-(* ------------------------------------------------------------------ the store: finite map, last write wins *)
-Definition store := list (bytes * bytes).   (* newest first *)
+(* ------------------------------------------------------------------ bytewise order of keys *)
+Definition bcmp (x y : byte) : comparison := N.compare (Byte.to_N x) (Byte.to_N y).
+Fixpoint bytes_cmp (a b : bytes) : comparison :=
+  match a, b with
+  | [], [] => Eq
+  | [], _ :: _ => Lt
+  | _ :: _, [] => Gt
+  | x :: a', y :: b' => match bcmp x y with Eq => bytes_cmp a' b' | c => c end
+  end.
+
+(* bytes.HasPrefix(k, p) *)
+Fixpoint prefix_of (p k : bytes) : bool :=
+  match p, k with
+  | [], _ => true
+  | x :: p', y :: k' => match bcmp x y with Eq => prefix_of p' k' | _ => false end
+  | _ :: _, [] => false
+  end.
+
+(* ------------------------------------------------------------------ the store: ordered by key, one value per key *)
+Definition store := list (bytes * bytes).
 
 Fixpoint get (s : store) (k : bytes) : option bytes :=
   match s with
   | [] => None
-  | (k', v) :: r => if bytes_eqb k k' then Some v else get r k
+  | (k', v) :: r => match bytes_cmp k k' with Eq => Some v | _ => get r k end
   end.
-Definition put (s : store) (k v : bytes) : store := (k, v) :: s.
+(* txn.Set: the new value replaces the old one *)
+Fixpoint put (s : store) (k v : bytes) : store :=
+  match s with
+  | [] => [(k, v)]
+  | (k', v') :: r =>
+    match bytes_cmp k k' with
+    | Lt => (k, v) :: s
+    | Eq => (k, v) :: r
+    | Gt => (k', v') :: put r k v
+    end
+  end.
 
 (* StoreSignedVAA: panics on an unsigned VAA, otherwise one Set of Marshal(v) under VaaIDFromVAA(v).Bytes() *)
 Inductive sres := Stored (s : store) | StorePanic.
@@ -55,51 +89,28 @@ Definition store_vaa (s : store) (v : vaa) : sres :=
   end.
 
 (* a whole history of stores (panicking calls leave the store unchanged) *)
-Fixpoint store_all (s : store) (vs : list vaa) : store :=
-  match vs with
-  | [] => s
-  | v :: r => store_all (match store_vaa s v with Stored s' => s' | StorePanic => s end) r
-  end.
+Definition store_step (s : store) (v : vaa) : store := match store_vaa s v with Stored s' => s' | StorePanic => s end.
+Definition store_all (s : store) (vs : list vaa) : store := fold_left store_step vs s.
 
 (* GetSignedVAABytes *)
 Inductive lres := Found (b : bytes) | NotFound.
 Definition get_signed_vaa_bytes (s : store) (i : vid) : lres :=
   match get s (key i) with Some b => Found b | None => NotFound end.
 
-(* ------------------------------------------------------------------ ordered prefix iteration (badger iterator) *)
-Fixpoint prefix_of (p k : bytes) : bool :=
-  match p, k with
-  | [], _ => true
-  | x :: p', y :: k' => Byte.eqb x y && prefix_of p' k'
-  | _ :: _, [] => false
-  end.
-
-(* bytewise lexicographic order of keys *)
-Fixpoint bytes_leb (a b : bytes) : bool :=
-  match a, b with
-  | [], _ => true
-  | _ :: _, [] => false
-  | x :: a', y :: b' =>
-    if Z_of_byte x <? Z_of_byte y then true else if Z_of_byte y <? Z_of_byte x then false else bytes_leb a' b'
-  end.
-Fixpoint insert_sorted (k : bytes) (l : list bytes) : list bytes :=
-  match l with
-  | [] => [k]
-  | x :: t => if bytes_leb k x then k :: l else x :: insert_sorted k t
-  end.
-Fixpoint isort (l : list bytes) : list bytes :=
-  match l with [] => [] | k :: t => insert_sorted k (isort t) end.
-Fixpoint dedupe (l : list bytes) : list bytes :=
-  match l with
+(* ------------------------------------------------------------------ prefix iteration (badger iterator) *)
+(* it.Seek(p): the first item whose key is >= p *)
+Fixpoint seek (p : bytes) (s : store) : store :=
+  match s with
   | [] => []
-  | k :: t => if existsb (bytes_eqb k) t then dedupe t else k :: dedupe t
+  | (k, v) :: r => match bytes_cmp k p with Lt => seek p r | _ => s end
   end.
-Definition sorted_keys (s : store) : list bytes := isort (dedupe (map fst s)).
-
-(* Seek(p); ValidForPrefix(p); Next(): the live items whose key starts with p, in key order *)
-Definition scan (p : bytes) (s : store) : list (bytes * bytes) :=
-  flat_map (fun k => match get s k with Some v => [(k, v)] | None => [] end)
-           (filter (prefix_of p) (sorted_keys s)).
+(* it.ValidForPrefix(p) ... it.Next(): the items from here on, up to the first whose key does not start with p *)
+Fixpoint while_prefix (p : bytes) (s : store) : store :=
+  match s with
+  | [] => []
+  | (k, v) :: r => if prefix_of p k then (k, v) :: while_prefix p r else []
+  end.
+Definition scan (p : bytes) (s : store) : store := while_prefix p (seek p s).
 
 (* ------------------------------------------------------------------ FindEmitterSequenceGap *)
 Inductive gapres :=
@@ -108,7 +119,7 @@ Inductive gapres :=
 | GapLoop.      (* lastSeq = 2^64-1: `for i := firstSeq; i <= lastSeq; i++` never terminates *)
 
 (* the sequences are read from the stored VAAs, not from the keys *)
-Fixpoint gap_seqs (items : list (bytes * bytes)) : option (list Z) :=
+Fixpoint gap_seqs (items : store) : option (list Z) :=
   match items with
   | [] => Some []
   | (_, v) :: r =>
@@ -122,27 +133,31 @@ Fixpoint zrange (n : nat) (from : Z) : list Z :=
   match n with O => [] | S k => from :: zrange k (from + 1) end.
 
 Definition max_seq (l : list Z) : Z := fold_left Z.max l 0.
+Definition zmem (i : Z) (l : list Z) : bool := existsb (Z.eqb i) l.
 
 (* `first := false` in db.go: firstSeq keeps its zero value (k < firstSeq is never true for a uint64); pinned by
    TestFindEmitterSequenceGap *)
+Definition gap_of (seqs : list Z) : gapres :=
+  let first := 0 in
+  let last := max_seq seqs in
+  if last =? 2 ^ 64 - 1 then GapLoop else
+  GapOk (filter (fun i => negb (zmem i seqs)) (zrange (Z.to_nat (last - first + 1)) first)) first last.
+
 Definition find_gap (s : store) (c : Z) (a : bytes) (t : Z) : gapres :=
   match gap_seqs (scan (gap_prefix c a t) s) with
   | None => GapErr
-  | Some seqs =>
-    let first := 0 in
-    let last := max_seq seqs in
-    if last =? 2 ^ 64 - 1 then GapLoop else
-    GapOk (filter (fun i => negb (existsb (Z.eqb i) seqs)) (zrange (Z.to_nat (last - first + 1)) first)) first last
+  | Some seqs => gap_of seqs
   end.
 
 (* ------------------------------------------------------------------ GetGovernanceVAABatch *)
-Fixpoint last_index_from (c : byte) (l : bytes) (i : nat) (acc : option nat) : option nat :=
+Definition is_slash (x : byte) : bool := match bcmp x slash with Eq => true | _ => false end.
+Fixpoint last_index_from (l : bytes) (i : nat) (acc : option nat) : option nat :=
   match l with
   | [] => acc
-  | x :: t => last_index_from c t (S i) (if Byte.eqb x c then Some i else acc)
+  | x :: t => last_index_from t (S i) (if is_slash x then Some i else acc)
   end.
 (* strings.LastIndex(s, "/") *)
-Definition last_index (c : byte) (l : bytes) : option nat := last_index_from c l O None.
+Definition last_slash (l : bytes) : option nat := last_index_from l O None.
 
 (* strconv.ParseUint(s, 10, bits): non-empty, decimal digits only, value below 2^bits *)
 Fixpoint parse_digits (l : bytes) (acc : Z) : option Z :=
@@ -163,29 +178,36 @@ Definition parse_uint (bits : Z) (l : bytes) : option Z :=
 Record goventry := { g_tc : Z; g_seq : Z; g_bytes : bytes }.
 Inductive govres := GovOk (l : list goventry) | GovErr.
 
-Fixpoint gov_loop (seqs : list Z) (items : list (bytes * bytes)) : option (list goventry) :=
+(* one iteration of the loop body: None = return err, Some None = continue, Some (Some e) = append e *)
+Definition gov_item (seqs : list Z) (k v : bytes) : option (option goventry) :=
+  match last_slash k with
+  | None => None
+  | Some si =>
+    match parse_uint 64 (skipn (S si) k) with
+    | None => None
+    | Some q =>
+      if negb (zmem q seqs) then Some None else
+      match last_slash (firstn si k) with
+      | None => None
+      | Some ti =>
+        match parse_uint 16 (skipn (S ti) (firstn si k)) with
+        | None => None
+        | Some t => Some (Some {| g_tc := t; g_seq := q; g_bytes := v |})
+        end
+      end
+    end
+  end.
+
+Fixpoint gov_loop (seqs : list Z) (items : store) : option (list goventry) :=
   match items with
   | [] => Some []
   | (k, v) :: r =>
-    match last_index slash k with
+    match gov_item seqs k v with
     | None => None
-    | Some si =>
-      match parse_uint 64 (skipn (S si) k) with
+    | Some oe =>
+      match gov_loop seqs r with
       | None => None
-      | Some q =>
-        if negb (existsb (Z.eqb q) seqs) then gov_loop seqs r else
-        match last_index slash (firstn si k) with
-        | None => None
-        | Some ti =>
-          match parse_uint 16 (skipn (S ti) (firstn si k)) with
-          | None => None
-          | Some t =>
-            match gov_loop seqs r with
-            | None => None
-            | Some l => Some ({| g_tc := t; g_seq := q; g_bytes := v |} :: l)
-            end
-          end
-        end
+      | Some l => Some (match oe with Some e => e :: l | None => l end)
       end
     end
   end.
@@ -226,23 +248,27 @@ Definition decode_emitter (ahex : bytes) : option bytes :=
 (* vaa.ChainID(x) for a 32-bit protobuf number: the uint16 conversion wraps *)
 Definition chain16 (x : Z) : Z := x mod 65536.
 
+Definition rpc_id (ec : Z) (a : bytes) (tc sq : Z) : vid := {| i_ec := chain16 ec; i_ea := a; i_tc := chain16 tc; i_seq := sq |}.
+
 Definition rpc_get_signed_vaa (s : store) (ec : Z) (ahex : bytes) (tc : Z) (sq : Z) : rpcres bytes :=
   match decode_emitter ahex with
   | None => RErr RInvalidArgument
   | Some a =>
-    match get_signed_vaa_bytes s {| i_ec := chain16 ec; i_ea := a; i_tc := chain16 tc; i_seq := sq |} with
+    match get_signed_vaa_bytes s (rpc_id ec a tc sq) with
     | Found b => ROk b
     | NotFound => RErr RNotFound
     end
   end.
 
+(* the loop of GetNonGovernanceVAABatch: absent sequences are skipped *)
+Definition batch_lookup (s : store) (ec : Z) (a : bytes) (tc : Z) (seqs : list Z) : list (Z * bytes) :=
+  flat_map (fun q => match get_signed_vaa_bytes s (rpc_id ec a tc q) with Found b => [(q, b)] | NotFound => [] end) seqs.
+
 Definition rpc_nongov_batch (s : store) (ec : Z) (ahex : bytes) (tc : Z) (seqs : list Z) : rpcres (list (Z * bytes)) :=
   if rpc_max_batch <? Z.of_nat (length seqs) then RErr RInvalidArgument else
   match decode_emitter ahex with
   | None => RErr RInvalidArgument
-  | Some a =>
-    ROk (flat_map (fun q => match get_signed_vaa_bytes s {| i_ec := chain16 ec; i_ea := a; i_tc := chain16 tc; i_seq := q |} with
-                            | Found b => [(q, b)] | NotFound => [] end) seqs)
+  | Some a => ROk (batch_lookup s ec a tc seqs)
   end.
 
 Definition rpc_gov_batch (s : store) (govc : Z) (gova : bytes) (seqs : list Z) : rpcres (list goventry) :=
@@ -261,6 +287,9 @@ Inductive missres :=
 | MissErr (e : rpcerr)
 | MissLoop.
 
+(* fmt.Sprintf("%d/%s/%d/%d", req.EmitterChain, emitterAddress, req.TargetChain, v): the request's numbers, unwrapped *)
+Definition msg_id_prefix (ec : Z) (a : bytes) (tc : Z) : bytes := dec ec ++ [slash] ++ hex a ++ [slash] ++ dec tc ++ [slash].
+
 Definition find_missing (s : store) (ec : Z) (ahex : bytes) (tc : Z) : missres :=
   match unhex ahex with
   | None => MissErr RInvalidArgument
@@ -270,7 +299,7 @@ Definition find_missing (s : store) (ec : Z) (ahex : bytes) (tc : Z) : missres :
     | GapErr => MissErr RInternal
     | GapLoop => MissLoop
     | GapOk ids first last =>
-      (* fmt.Sprintf("%d/%s/%d/%d", req.EmitterChain, emitterAddress, req.TargetChain, v): the request's numbers, unwrapped *)
-      MissOk (map (fun q => dec ec ++ [slash] ++ hex a ++ [slash] ++ dec tc ++ [slash] ++ dec q) ids) first last
+      let pre := msg_id_prefix ec a tc in
+      MissOk (map (fun q => pre ++ dec q) ids) first last
     end
   end.
